@@ -270,6 +270,14 @@ def rule_r2(ctx, rep):
                 rep.oblige(("R2d", fi.qname), exits_ok)
                 if not exits_ok:
                     rep.add("R2", fi.qname, lp.iter, f"some child is not visited by `{name}`: the binding does not reach the whole subtree", fi.loc(lp))
+                md2 = MarkDomain()
+                md2.mark(lp.iter, "LOOP")
+                fl2, exits2 = run_marks(ctx, fi, md2)
+                reach_ok = bool(exits2) and all("LOOP" in must for (must, _m) in exits2)
+                rep.oblige(("R2e", fi.qname), reach_ok)
+                if not reach_ok:
+                    rep.add("R2", fi.qname, "path that skips the children", f"`{name}` can return without walking the node's children: descendants that bind the "
+                            f"prefix themselves are not reached, so the operation does not cover exactly the subtree", fi.loc(lp))
     rep.floor("namespace mutators", 2)
     rep.floor("namespace writes / recursive calls", 6)
 
@@ -343,6 +351,29 @@ def rule_r3(ctx, rep):
         bad = [x for x in ast.walk(loop) if isinstance(x, (ast.Break, ast.Return, ast.Continue))]
         if bad:
             rep.add("R3", fi.qname, bad[0], "the hand-over loop is left early: later parent prefixes do not reach the child", fi.loc(bad[0]))
+    # direct sharing of the parent's dict is allowed only when the two maps are equal
+    from ..condeval import guard_verdict
+    from ..peval import PEvalUnsupported
+    shares = [n for n in ast.walk(fi.node) if isinstance(n, ast.Assign) and any(isinstance(t, ast.Attribute) and nm.canon(t.attr) == "_nsmap" and _path(t.value) == childp
+                                                                              for t in n.targets) and _path(n.value) in (f"{selfp}.nsmap", f"{selfp}._nsmap")]
+    for sh in shares:
+        for (pm, cm, want) in (({"a": "1"}, {"a": "1"}, True), ({"a": "1"}, {}, False), ({"a": "1"}, {"b": "2"}, False), ({}, {}, True), ({"a": "1"}, {"a": "2"}, False)):
+            env = {selfp: {"__obj__": True, "nsmap": pm, "_nsmap": pm, "_children": [], "children": []},
+                   childp: {"__obj__": True, "nsmap": cm, "_nsmap": cm, "parent": None, "_parent": None}}
+            for x in fi.params[2:]:
+                env[x] = None
+            try:
+                v = guard_verdict(ctx, fi, sh, env)
+            except PEvalUnsupported as ex:
+                rep.notes.append(f"add_child: sharing guard not evaluated: {ex}")
+                break
+            rep.count("sharing-guard verdicts")
+            ok = v == want
+            rep.oblige(("R3", "share", repr(pm), repr(cm)), ok)
+            if not ok:
+                rep.add("R3", fi.qname, sh, f"with parent map {pm} and child map {cm} the child {'is made to share' if v else 'does not share'} the parent's dict; "
+                        f"sharing is correct exactly when the maps are equal (otherwise the child's own subtree never receives the parent's prefixes)", fi.loc(sh))
+                break
     rep.floor("namespace hand-overs in add_child", 1)
 
 
